@@ -126,6 +126,8 @@ def oracle(job, ob):
                     bad.append(("completion-time", "completion not at the first step time beyond t_max", [T[got - 1], T[got]], tmax))
     if tmax > 0 and not close(ob["progress"], frac(100) * frac(T[-1]) / frac(tmax), rel=1e-9):
         bad.append(("progress", "get_progress() is not 100*t/t_max", ob["progress"], float(100 * T[-1] / tmax)))
+    if tmax <= 0 and ob["progress"] != 0.0:
+        bad.append(("progress-no-tmax", "get_progress() is not 0 for t_max <= 0", ob["progress"], 0.0))
     # ---- default t_max
     if not info["explicit_tmax"] and ts and tmax != ts[-1]:
         bad.append(("default-tmax", "default t_max is not the last requested time", tmax, ts[-1]))
